@@ -34,6 +34,14 @@ type Plan struct {
 	root       *selectionPlan
 	isMutation bool
 
+	// dynamicDirectives is true when some @skip/@include in the document
+	// takes its `if` argument from a variable. Such plans are re-collected
+	// per request with the coerced variable values (planVars) so that
+	// directives are evaluated at every occurrence, exactly as the
+	// reference CollectFields does.
+	dynamicDirectives bool
+	planVars          map[string]interface{}
+
 	// abstractMu guards lazy population of fieldPlan.abstractAlternatives,
 	// which happens at execute time (concurrently across fields) the
 	// first time each concrete type is encountered for an abstract field.
@@ -157,8 +165,78 @@ func PlanQuery(schema *Schema, doc *ast.Document, operationName string) (*Plan, 
 		rootType:   rootType,
 		isMutation: operation.GetOperation() == ast.OperationTypeMutation,
 	}
-	plan.root = plan.planSelectionSet(rootType, operation.GetSelectionSet(), nil)
+	plan.dynamicDirectives = documentHasDynamicDirectives(doc)
+	if !plan.dynamicDirectives {
+		plan.root = plan.planSelectionSet(rootType, operation.GetSelectionSet(), nil)
+	}
 	return plan, nil
+}
+
+// specialise returns a per-request copy of the plan whose selection tree is
+// collected with the request's coerced variable values.
+func (p *Plan) specialise(vars map[string]interface{}) *Plan {
+	if vars == nil {
+		vars = map[string]interface{}{}
+	}
+	sp := &Plan{
+		schema:            p.schema,
+		operation:         p.operation,
+		fragments:         p.fragments,
+		rootType:          p.rootType,
+		isMutation:        p.isMutation,
+		dynamicDirectives: true,
+		planVars:          vars,
+	}
+	sp.root = sp.planSelectionSet(sp.rootType, sp.operation.GetSelectionSet(), nil)
+	return sp
+}
+
+func documentHasDynamicDirectives(doc *ast.Document) bool {
+	for _, def := range doc.Definitions {
+		switch d := def.(type) {
+		case *ast.OperationDefinition:
+			if selectionSetHasDynamicDirectives(d.SelectionSet) {
+				return true
+			}
+		case *ast.FragmentDefinition:
+			if selectionSetHasDynamicDirectives(d.SelectionSet) {
+				return true
+			}
+		}
+	}
+	return false
+}
+
+func directivesAreDynamic(directives []*ast.Directive) bool {
+	for _, d := range directives {
+		if d != nil && astHasVariables(d.Arguments) {
+			return true
+		}
+	}
+	return false
+}
+
+func selectionSetHasDynamicDirectives(set *ast.SelectionSet) bool {
+	if set == nil {
+		return false
+	}
+	for _, sel := range set.Selections {
+		switch s := sel.(type) {
+		case *ast.Field:
+			if directivesAreDynamic(s.Directives) || selectionSetHasDynamicDirectives(s.SelectionSet) {
+				return true
+			}
+		case *ast.InlineFragment:
+			if directivesAreDynamic(s.Directives) || selectionSetHasDynamicDirectives(s.SelectionSet) {
+				return true
+			}
+		case *ast.FragmentSpread:
+			if directivesAreDynamic(s.Directives) {
+				return true
+			}
+		}
+	}
+	return false
 }
 
 // planSelectionSet pre-collects the fields under one selection-set
@@ -281,7 +359,7 @@ func (p *Plan) collectInto(parentType *Object, selectionSet *ast.SelectionSet, v
 	for _, iSelection := range selectionSet.Selections {
 		switch sel := iSelection.(type) {
 		case *ast.Field:
-			pred, alwaysSkip := planDirectives(sel.Directives)
+			pred, alwaysSkip := planDirectives(sel.Directives, p.planVars)
 			if alwaysSkip {
 				continue
 			}
@@ -323,7 +401,7 @@ func (p *Plan) collectInto(parentType *Object, selectionSet *ast.SelectionSet, v
 			sp.fields = append(sp.fields, fp)
 
 		case *ast.InlineFragment:
-			pred, alwaysSkip := planDirectives(sel.Directives)
+			pred, alwaysSkip := planDirectives(sel.Directives, p.planVars)
 			if alwaysSkip {
 				continue
 			}
@@ -335,7 +413,7 @@ func (p *Plan) collectInto(parentType *Object, selectionSet *ast.SelectionSet, v
 			}
 
 		case *ast.FragmentSpread:
-			pred, alwaysSkip := planDirectives(sel.Directives)
+			pred, alwaysSkip := planDirectives(sel.Directives, p.planVars)
 			if alwaysSkip {
 				continue
 			}
@@ -468,7 +546,7 @@ func valueHasVariables(v ast.Value) bool {
 // time when their `if` argument is a literal; returns a
 // skipPredicate (nil if always-include) and an alwaysSkip flag (true
 // if literal evaluation produced a definitive skip).
-func planDirectives(directives []*ast.Directive) (pred func(map[string]interface{}) bool, alwaysSkip bool) {
+func planDirectives(directives []*ast.Directive, planVars map[string]interface{}) (pred func(map[string]interface{}) bool, alwaysSkip bool) {
 	var skipDir, includeDir *ast.Directive
 	for _, d := range directives {
 		if d == nil || d.Name == nil {
@@ -488,20 +566,20 @@ func planDirectives(directives []*ast.Directive) (pred func(map[string]interface
 	// for the variable-driven cases.
 	var skipDyn, includeDyn *ast.Directive
 	if skipDir != nil {
-		if astHasVariables(skipDir.Arguments) {
+		if planVars == nil && astHasVariables(skipDir.Arguments) {
 			skipDyn = skipDir
 		} else {
-			vals := getArgumentValues(SkipDirective.Args, skipDir.Arguments, nil)
+			vals := getArgumentValues(SkipDirective.Args, skipDir.Arguments, planVars)
 			if v, ok := vals["if"].(bool); ok && v {
 				return nil, true
 			}
 		}
 	}
 	if includeDir != nil {
-		if astHasVariables(includeDir.Arguments) {
+		if planVars == nil && astHasVariables(includeDir.Arguments) {
 			includeDyn = includeDir
 		} else {
-			vals := getArgumentValues(IncludeDirective.Args, includeDir.Arguments, nil)
+			vals := getArgumentValues(IncludeDirective.Args, includeDir.Arguments, planVars)
 			if v, ok := vals["if"].(bool); ok && !v {
 				return nil, true
 			}
@@ -611,6 +689,9 @@ func ExecutePlan(plan *Plan, p ExecuteParams) (result *Result) {
 			return
 		}
 
+		if plan.dynamicDirectives {
+			plan = plan.specialise(variableValues)
+		}
 		eCtx := &executionContext{
 			Schema:         execSchema,
 			Fragments:      plan.fragments,
